@@ -309,7 +309,7 @@ func genHistory(rng *rand.Rand) *common.History {
 		case c < 93 && (mode == 6 || mode == 5 || rng.IntN(8) == 0):
 			l := pick(rng, limitSizes)
 			if rng.IntN(3) == 0 {
-				l = size + pick(rng, []int{-3, 0, 1, 2, 3, 10, 100})
+				l = size + pick(rng, []int{-3, -2, -1, -1, 0, 1, 2, 3, 10, 100})
 			}
 			do("4", common.I(l))
 		case c < 94 && rng.IntN(4) == 0:
